@@ -70,6 +70,54 @@ def judge(pre, op, out, ctx):
             check(client, 'server-sends-priority', F.op_label(op))
 
 
+def h_after_refused_open():
+    """a client's send_headers on a NEW stream id is refused (solver-chosen reason: not a
+    request, a response block, no authority, host/authority mismatch, empty :path, TE, ...);
+    nothing was sent, so the stream does not exist: DATA, END_STREAM or trailers on that id are
+    refused as well and emit nothing"""
+    from engine import ops, h2h, models
+    from engine.core import sym_choice, sym_bool
+
+    def h():
+        earlier = sym_choice('earlier_stream', [False, True])
+        with h2h.native():
+            ctx = ops.Ctx(True)
+            if earlier:
+                ops.run_op(ctx, ('send_headers', 1, 'req', False))
+                ctx.me.data_to_send()
+        me = ctx.me
+        sid = 3
+        kind = sym_choice('refused_block', ['bad', 'resp', 'info', 'trailers', 'noauth',
+                                            'hostmismatch', 'emptypath', 'te'])
+        block = ops.KIND_HEADERS.get(kind) if kind != 'te' else \
+            list(h2h.REQ) + [(b'te', b'gzip')]
+        out = models.Out(me)
+        try:
+            me.send_headers(sid, block, end_stream=sym_bool('end_stream'))
+        except h2.exceptions.ProtocolError:
+            note('refused')
+        else:
+            note('accepted')
+            return
+        check(out.nbytes() == 0, 'refused-call-emits:send_headers', kind)
+        nxt = sym_choice('then', ['send_data', 'end_stream', 'trailers', 'reset'])
+        try:
+            if nxt == 'send_data':
+                me.send_data(sid, b'x')
+            elif nxt == 'end_stream':
+                me.end_stream(sid)
+            elif nxt == 'trailers':
+                me.send_headers(sid, h2h.TRAILERS, end_stream=True)
+            else:
+                me.reset_stream(sid)
+        except h2.exceptions.ProtocolError:
+            pass
+        for f in out.frames():
+            check(False, 'frame-on-a-stream-never-opened-with-request-headers:%s:after-refused-%s'
+                  % (type(f).__name__, kind), nxt)
+    return h
+
+
 def extra_ops(client, sids):
     A = []
     for sid in sids:
@@ -80,5 +128,9 @@ def extra_ops(client, sids):
 
 
 def shards(tier, seed):
-    return F.standard_shards(tier, seed, judge, alpha_filter=lambda o: not o[0].isupper(),
-                             novalidate=True, extra_ops=extra_ops)
+    from engine.runner import Shard
+    out = F.standard_shards(tier, seed, judge, alpha_filter=lambda o: not o[0].isupper(),
+                            novalidate=True, extra_ops=extra_ops)
+    out.append(Shard('after_refused_open/client', h_after_refused_open(), budget=150,
+                     twin=False, expect=['refused']))
+    return out
